@@ -408,11 +408,14 @@ Definition is_cnone (v : cfgv) : bool := match v with CNone => true | _ => false
    possibly wrapped in pyramid.session._CanonicalBase64Serializer *)
 Inductive serdesc := SSigned (secret : text) (salt : option text) | SCanon (d : serdesc).
 
+(* the cookie attributes, raw as passed: cookie_name, path, domain, secure, httponly, samesite *)
+Record attrs := { a_name : cfgv; a_path : cfgv; a_domain : cfgv; a_secure : cfgv; a_httponly : cfgv; a_samesite : cfgv }.
 Record fargs := { fa_secret : text; fa_salt : option text; fa_max_age : cfgv; fa_timeout : cfgv; fa_reissue : cfgv;
-                  fa_soe : cfgv }.                      (* arguments of SignedCookieSessionFactory *)
-Record bargs := { b_ser : serdesc; b_max_age : cfgv; b_timeout : cfgv; b_reissue : cfgv; b_soe : cfgv }.
+                  fa_soe : cfgv; fa_attrs : attrs }.                      (* arguments of SignedCookieSessionFactory *)
+Record bargs := { b_ser : serdesc; b_max_age : cfgv; b_timeout : cfgv; b_reissue : cfgv; b_soe : cfgv;
+                  b_attrs : attrs }.
                                                         (* what it hands to BaseCookieSessionFactory *)
-Record cfg := { c_max_age : option Z; c_timeout : option Z; c_reissue : option Z; c_soe : cfgv }.
+Record cfg := { c_max_age : option Z; c_timeout : option Z; c_reissue : option Z; c_soe : cfgv; c_attrs : attrs }.
                                                         (* class attributes of CookieSession *)
 Inductive ores := OOk (v : option Z) | ORaise | OUnm.
 Inductive cres := CfgOk (c : cfg) | CfgRaise | CfgUnm.
@@ -426,10 +429,11 @@ Definition config (b : bargs) : cres :=
   cfg_bind (cfg_conv (b_max_age b)) (fun m =>
   cfg_bind (cfg_conv (b_reissue b)) (fun r =>
   cfg_bind (cfg_conv (b_timeout b)) (fun t =>
-  CfgOk {| c_max_age := m; c_timeout := t; c_reissue := r; c_soe := b_soe b |}))).
+  CfgOk {| c_max_age := m; c_timeout := t; c_reissue := r; c_soe := b_soe b; c_attrs := b_attrs b |}))).
 Definition signed_factory (a : fargs) : bargs :=
   {| b_ser := (if canonical_check then SCanon (SSigned (fa_secret a) (fa_salt a)) else SSigned (fa_secret a) (fa_salt a));
-     b_max_age := fa_max_age a; b_timeout := fa_timeout a; b_reissue := fa_reissue a; b_soe := fa_soe a |}.
+     b_max_age := fa_max_age a; b_timeout := fa_timeout a; b_reissue := fa_reissue a; b_soe := fa_soe a;
+     b_attrs := fa_attrs a |}.
 
 (* WebOb SignedSerializer: salted_secret = bytes_(salt or '') + bytes_(secret) in latin-1 if BOTH can be encoded so,
    otherwise both in UTF-8 *)
@@ -453,3 +457,66 @@ Definition canon_loads (O : oracles) (inner : text -> option jv) (c : text) : op
 Fixpoint ser_key (d : serdesc) : text :=
   match d with SSigned sec salt => salted_key salt sec | SCanon d' => ser_key d' end.
 Definition ser_canonical (d : serdesc) : bool := match d with SCanon _ => true | SSigned _ _ => false end.
+
+(* ================================================================== calling SignedCookieSessionFactory
+   The documented signature (14 parameters, this order):
+     0 secret 1 cookie_name 2 max_age 3 path 4 domain 5 secure 6 httponly 7 samesite 8 set_on_exception
+     9 timeout 10 reissue_time 11 hashalg 12 salt 13 serializer
+   A call passes the first [c_npos] values positionally, the others by keyword or not at all. [c_vals] lists the
+   values in the DOCUMENTED order (None = not given).  Python binds positional argument j to the j-th parameter of
+   the signature AS IT IS IN THE SOURCE ([sig]: for each source position the documented index of that parameter;
+   regenerated), keywords by name, the rest to the source's defaults ([dflt], by documented index; regenerated). *)
+Record fcall := { c_npos : nat; c_vals : list (option cfgv) }.
+Definition doc_sig : list nat := seq 0%nat 14%nat.
+Fixpoint index_of (d : nat) (l : list nat) (i : nat) : option nat :=
+  match l with [] => None | x :: r => if Nat.eqb x d then Some i else index_of d r (S i) end.
+Definition given (c : fcall) (d : nat) : option cfgv :=
+  match nth_error (c_vals c) d with Some (Some v) => Some v | _ => None end.
+Definition dflt_of (dflt : list (option cfgv)) (d : nat) : option cfgv :=
+  match nth_error dflt d with Some (Some v) => Some v | _ => None end.
+(* the value parameter d (documented index) is bound to; None = TypeError (given twice / required and missing) *)
+Definition bind1 (sig : list nat) (dflt : list (option cfgv)) (c : fcall) (d : nat) : option cfgv :=
+  match index_of d sig 0 with
+  | None => None
+  | Some p =>
+      if Nat.ltb p (c_npos c) then
+        (* the p-th positional value lands here *)
+        if Nat.leb (c_npos c) d && match given c d with Some _ => true | None => false end then None
+        else given c p
+      else if Nat.ltb d (c_npos c) then dflt_of dflt d        (* its own value went to another parameter *)
+      else match given c d with Some v => Some v | None => dflt_of dflt d end
+  end.
+Definition bind_call (sig : list nat) (dflt : list (option cfgv)) (c : fcall) : option (list cfgv) :=
+  map_opt (bind1 sig dflt c) doc_sig.
+
+(* the documented defaults *)
+Definition doc_defaults : list (option cfgv) :=
+  [None; Some (CStr [115; 101; 115; 115; 105; 111; 110]%N); Some CNone; Some (CStr [47]%N); Some CNone;
+   Some (CBool false); Some (CBool false); Some (CStr [76; 97; 120]%N); Some (CBool true);
+   Some (CInt 1200); Some (CInt 0); Some (CStr [115; 104; 97; 53; 49; 50]%N);
+   Some (CStr [112; 121; 114; 97; 109; 105; 100; 46; 115; 101; 115; 115; 105; 111; 110; 46]%N); Some CNone].
+(* declarative reading of a call: each parameter has the value the caller gave for it, else the documented default *)
+Definition doc_arg (c : fcall) (d : nat) : option cfgv :=
+  match given c d with Some v => Some v | None => dflt_of doc_defaults d end.
+Definition doc_bind (c : fcall) : option (list cfgv) := map_opt (doc_arg c) doc_sig.
+(* a well-formed call: 14 slots, the positional ones all given, the secret given, no serializer passed positionally *)
+Definition wf_call (c : fcall) : Prop :=
+  length (c_vals c) = 14%nat /\ (1 <= c_npos c <= 14)%nat /\ forall d, (d < c_npos c)%nat -> given c d <> None.
+
+(* the modelled arguments out of the bound values; None = a type this model does not cover *)
+Definition fargs_of (l : list cfgv) : option fargs :=
+  match l with
+  | [CStr sec; nm; m; pa; dm; se; ho; ss; e; t; r; _; salt; _] =>
+      match (match salt with CNone => Some None | CStr s => Some (Some s) | _ => None end) with
+      | Some sl => Some {| fa_secret := sec; fa_salt := sl; fa_max_age := m; fa_timeout := t; fa_reissue := r;
+                           fa_soe := e;
+                           fa_attrs := {| a_name := nm; a_path := pa; a_domain := dm; a_secure := se;
+                                          a_httponly := ho; a_samesite := ss |} |}
+      | None => None
+      end
+  | _ => None
+  end.
+
+(* ================================================================== request plumbing (pyramid/request.py)
+   response callbacks: the session's own (set_cookie_callback registered by changed()) and other ones *)
+Inductive cb := CbSession | CbOther.
